@@ -62,6 +62,7 @@ type session struct {
 	closeC      chan struct{}
 	closeW      sync.WaitGroup
 	vmu         sync.Mutex
+	manifestErr bool // last write to the manifest failed; need external synchronization
 
 	// Testing fields
 	fileRefCh chan chan map[int64]int // channel used to pass current reference stat
@@ -223,6 +224,17 @@ func (s *session) commit(r *sessionRecord, trivial bool) (err error) {
 		}
 	}()
 
+	if s.manifestErr {
+		// A previous write to the manifest failed: the journal writer keeps
+		// returning that error and the tail of the file is in unknown state.
+		// Switch to a new manifest holding a snapshot of the current version,
+		// the record is then appended to it as usual.
+		if err = s.newManifest(nil, v); err != nil {
+			return
+		}
+		s.manifestErr = false
+	}
+
 	if s.manifest == nil {
 		// manifest journal writer not yet created, create one
 		err = s.newManifest(r, nv)
@@ -243,6 +255,7 @@ func (s *session) commit(r *sessionRecord, trivial bool) (err error) {
 		err = s.newManifest(rec, nv)
 	} else {
 		err = s.flushManifest(r)
+		s.manifestErr = err != nil
 	}
 
 	// finally, apply new version if no error rise
